@@ -1022,6 +1022,53 @@ theorem decode_allocates_at_most_cursor (ty : Ty) (hs : ty.supportedS = true) (i
   have := decode_allocates_at_most_S ty hs input v _ e2
   simpa [List.length_drop, Nat.sub_sub_self hc] using this
 
+/-- THE CAPPED LOADS AND THE RAW ARRAY ON EVERY INPUT (they are operations on the stream beside the universe `Ty`, so
+they get their own totality statement): `load(writable_buffer&)`, `load(char*, maxsz)` and `archive::data<T>(xs,N)`
+over the bounded reader return for EVERY input and every capacity, stay inside the input, and never deliver more than
+the destination holds -/
+theorem capped_load_total_B (input : List Byte) (cap : Nat) :
+    (∃ got c, c ≤ input.length ∧ loadWritableB input cap = some (got, input.drop c) ∧ got.length ≤ cap) ∧
+    (∃ got c, c ≤ input.length ∧ loadCharArrB input cap = some (got, input.drop c) ∧ got.length ≤ cap % 65536) := by
+  have key : ∀ (readsize : Nat → Nat) (k : Nat → Nat),
+      ∃ got c, c ≤ input.length ∧
+        (match loadScalarB .u16 input with
+         | none => none
+         | some (len, r) =>
+           match loadDataB r (readsize len) with
+           | none => none
+           | some (bs, r2) => some (bs, skipB r2 (k len))) = some (got, input.drop c) ∧
+        ∃ len, got.length = u16 (readsize len) := by
+    intro readsize k
+    obtain ⟨len, c1, hc1, e1⟩ := safe_loadScalarB .u16 input
+    obtain ⟨bs, c2, hc2, e2⟩ := safe_loadDataB (readsize len) (input.drop c1)
+    have hl := (loadDataB_spec _ _ _ _ e2).2.1
+    refine ⟨bs, min (c1 + c2 + k len) input.length, Nat.min_le_right _ _, ?_, len, hl⟩
+    simp only [e1, e2, skipB, List.drop_drop]
+    congr 2
+    by_cases h : c1 + c2 + k len ≤ input.length
+    · rw [Nat.min_eq_left h]
+    · rw [Nat.min_eq_right (by omega), List.drop_eq_nil_of_le (by omega), List.drop_eq_nil_of_le (Nat.le_refl _)]
+  constructor
+  · obtain ⟨got, c, hc, e, len, hl⟩ := key (fun len => if cap < len then cap else len) (fun len => len - (if cap < len then cap else len))
+    refine ⟨got, c, hc, e, ?_⟩
+    rw [hl]; unfold u16; split <;> omega
+  · obtain ⟨got, c, hc, e, len, hl⟩ := key (fun sz => if u16 cap < sz then u16 cap else sz) (fun sz => sz - (if u16 cap < sz then u16 cap else sz))
+    refine ⟨got, c, hc, e, ?_⟩
+    rw [hl]; unfold u16; split <;> omega
+
+theorem data_array_total_B (k : Sc) (n : Nat) (input : List Byte) :
+    ∃ xs c, c ≤ input.length ∧ c ≤ (n * k.width) % 65536 ∧ decodeDataB k n input = some (xs, input.drop c) := by
+  obtain ⟨bs, c, hc, e⟩ := safe_loadDataB (n * k.width) input
+  obtain ⟨_, _, c', hc1, hc2⟩ := loadDataB_spec _ _ _ _ e
+  have hd : (input.drop c).length = input.length - c := List.length_drop
+  have hcc : c ≤ (n * k.width) % 65536 := by unfold u16 at hc2; omega
+  have e' : loadDataB input (n * k.width) = some (bs, input.drop c) := e
+  exact ⟨chunks k.width n (bs ++ List.replicate (n * k.width - bs.length) 0#8), c, hc, hcc, by
+    simp only [decodeDataB, e']⟩
+
+example : loadWritableB [5, 0, 1, 2] 1 = some ([1], []) := by decide
+example : loadCharArrB [2, 0, 1, 2, 9] 1 = some ([1], [9]) := by decide
+
 example : Ty.supportedS (.vec (.vec (.sc .u16))) = true := by decide
 
 end Igris.C09
